@@ -11,8 +11,8 @@ import (
 	"encoding"
 	"errors"
 	"fmt"
+	"io"
 	"runtime"
-	"strings"
 	"testing"
 
 	"github.com/wollac/iota-crypto-demo/pkg/merkle"
@@ -153,6 +153,38 @@ func (e leafErr) Error() string { return fmt.Sprintf("leaf %d cannot be marshall
 
 func (l failLeaf) MarshalBinary() ([]byte, error) { return nil, leafErr{l.idx} }
 
+// a leaf that cannot be marshalled can still be written, printed and read
+func (l failLeaf) WriteTo(w io.Writer) (int64, error) {
+	n, err := w.Write([]byte("decoy:WriteTo"))
+	return int64(n), err
+}
+func (l failLeaf) String() string { return "decoy:String" }
+
+// decoyLeaf has, next to MarshalBinary, the other ways Go types hand out bytes (io.WriterTo, io.Reader,
+// Bytes, String, MarshalText, GobEncode, MarshalJSON): each yields something else, and the consuming ones
+// (WriteTo, Read) use the leaf up. Only MarshalBinary defines the leaf.
+type decoyLeaf struct {
+	content  []byte
+	consumed *int
+}
+
+func (l *decoyLeaf) MarshalBinary() ([]byte, error) { return l.content, nil }
+func (l *decoyLeaf) WriteTo(w io.Writer) (int64, error) {
+	*l.consumed++
+	n, err := w.Write([]byte("decoy:WriteTo"))
+	return int64(n), err
+}
+func (l *decoyLeaf) Read(p []byte) (int, error) {
+	*l.consumed++
+	return copy(p, "decoy:Read"), io.EOF
+}
+func (l *decoyLeaf) Bytes() []byte                { return []byte("decoy:Bytes") }
+func (l *decoyLeaf) String() string               { return "decoy:String" }
+func (l *decoyLeaf) Len() int                     { return 11 }
+func (l *decoyLeaf) MarshalText() ([]byte, error) { return []byte("decoy:MarshalText"), nil }
+func (l *decoyLeaf) GobEncode() ([]byte, error)   { return []byte("decoy:GobEncode"), nil }
+func (l *decoyLeaf) MarshalJSON() ([]byte, error) { return []byte(`"decoy:MarshalJSON"`), nil }
+
 var hashers = map[int]*merkle.Hasher{}
 
 type treeCase struct {
@@ -230,7 +262,9 @@ func checkTree(c treeCase) (h.Info, error) {
 			}
 		}
 		var le leafErr
-		isFirst := err != nil && ((errors.As(err, &le) && le.idx == first) || strings.Contains(err.Error(), leafErr{first}.Error()))
+		// "the first marshaling error is returned": the error value itself, possibly wrapped so that
+		// errors.As still finds it; a new error that only quotes its text is not that error
+		isFirst := err != nil && errors.As(err, &le) && le.idx == first
 		if len(got) != 0 || !isFirst { // "instead of a hash": no digest next to the error; nil or empty is not prescribed
 			return info, fmt.Errorf("Hash with failing leaves %v: got %x, %v; want (nil, error of leaf %d)", c.Fail, got, err, first)
 		}
@@ -273,6 +307,23 @@ func checkTree(c treeCase) (h.Info, error) {
 		}
 		if g4, err := hasher.Hash(fourth); err != nil || !bytes.Equal(g4, got) {
 			return info, fmt.Errorf("the same %d leaves marshalled through one shared scratch buffer (each encoding valid until the next MarshalBinary call) give %x, %v (want %x)", n, g4, err, got)
+		}
+	}
+	// leaves that can also be written, read, printed and encoded in other ways
+	{
+		consumed := 0
+		fifth := make([]encoding.BinaryMarshaler, n)
+		for i := range fifth {
+			fifth[i] = &decoyLeaf{raw[i], &consumed}
+		}
+		for pass := 1; pass <= 2; pass++ {
+			g5, err := hasher.Hash(fifth)
+			if err != nil || !bytes.Equal(g5, got) {
+				return info, fmt.Errorf("the same %d leaves through a type that also implements io.WriterTo, io.Reader, Bytes, String, MarshalText, GobEncode and MarshalJSON (all yielding other bytes than MarshalBinary) give %x, %v on pass %d (want %x: only the MarshalBinary encoding defines a leaf)", n, g5, err, pass, got)
+			}
+			if consumed != 0 {
+				return info, fmt.Errorf("Hash called a consuming method (WriteTo / Read) of its leaves %d time(s): the inputs are used up", consumed)
+			}
 		}
 	}
 	// an empty leaf may come as a nil slice
